@@ -41,16 +41,14 @@ Definition op_wf (s : spec) (o : op) : bool :=
 Definition arr_esz_ok (s : spec) (a : val) (esz : N) : bool :=
   match arr_get s a with Some (_, ar) => esz =? sa_esz ar | None => true end.
 
-Definition is_pinf (w : word) : bool := f64_is_inf w && negb (f64_sign w).
-
 Definition spec_faults (s : spec) (o : op) : bool := sres_fault (snd (spec_step s o)).
 
 Definition vm_pre (s : spec) (o : op) : bool :=
   op_wf s o &&
   match o with
   | OStatePush k | OStatePop k => (k <? U24_LIMIT)%Z          (* the bytecode's offset field has 24 bits *)
-  | OArrayGet a idx esz => arr_esz_ok s a esz && negb (is_pinf idx)
-  | OArraySet a idx _ esz => arr_esz_ok s a esz && negb (is_pinf idx)
+  | OArrayGet a _ esz => arr_esz_ok s a esz
+  | OArraySet a _ _ esz => arr_esz_ok s a esz
   | ONow => sp_now s =? 0                                     (* the trait methods return constants *)
   | OSamplerate => sp_sr s =? F64_48000
   | _ => true
